@@ -326,12 +326,20 @@ func TestPropForward(t *testing.T) {
 	forward.Rapid(t, func(t *rapid.T) Case { return genCase(t, false) })
 }
 
-func TestPropReverse(t *testing.T) {
-	reverse.Rapid(t, func(t *rapid.T) Case {
-		c := genCase(t, true)
-		c.RawValidity = rapid.SampledFrom([]string{"", "", "empty-fragment", "upper-scheme"}).Draw(t, "rawvalidity")
-		return c
-	})
+// TestConcForward: batches of cases evaluated at the same time on separate goroutines (vh.Prop.Concurrent).
+func TestConcForward(t *testing.T) {
+	forward.Concurrent(t, func(t *rapid.T) Case { return genCase(t, false) }, 8, 3)
+}
+
+func TestPropReverse(t *testing.T) { reverse.Rapid(t, genPropReverse) }
+
+// TestConcReverse: batches of cases evaluated at the same time on separate goroutines (vh.Prop.Concurrent).
+func TestConcReverse(t *testing.T) { reverse.Concurrent(t, genPropReverse, 8, 3) }
+
+func genPropReverse(t *rapid.T) Case {
+	c := genCase(t, true)
+	c.RawValidity = rapid.SampledFrom([]string{"", "", "empty-fragment", "upper-scheme"}).Draw(t, "rawvalidity")
+	return c
 }
 
 var _ = time.Now
